@@ -119,6 +119,7 @@ Inductive st :=
 | TypesShortcutAfterPipe
 | AnyCommentStart | InlineComment | MultiLineComment | KeyShortcut
 | MultiLineCommentStart                      (* after reading `##` (fix b9d4d7e) *)
+| EndTopAfterNewLine                         (* stateEndTop in length mode after a line break while annotations are banned (fix a0479cf) *)
 (* scanner_annotations.go *)
 | AnyAnnotationStart | InlineAnnotationStart | InlineAnnotation
 | InlineAnnotationTextPrefix | InlineAnnotationTextPrefix2 | InlineAnnotationText
@@ -390,6 +391,7 @@ Definition st_found_object_key_begin_after_new_line (s : sc) : res sc :=
   else key_begin_tail s.
 
 Definition st_found_object_value_begin (s : sc) : res sc :=
+  if (ann_none s && is_comment_start s c)%bool then switch_to_comment s else      (* fix ef98c98: a user comment between the colon and the value *)
   do rs <- st_begin_value s ;
   let '(r, s) := rs in ROk (switch_begin [ObjectValueBegin] false r s).
 
@@ -433,12 +435,13 @@ Definition st_after_object_key (s : sc) : res sc :=
   let s := if nl then found NewLine s else s in
   if is_blank c then ROk s
   else if is_annotation_start c then switch_to_annotation s
+  else if (ann_none s && is_comment_start s c)%bool then switch_to_comment s     (* fix ef98c98 *)
   else if ch c 58 then ROk (set_step FoundObjectValueBegin s)
   else err_char.
 
 Definition st_after_object_value (s : sc) : res sc :=
   do nl <- is_new_line s c ;
-  if nl then ROk (found NewLine s)
+  if nl then ROk (let s := found NewLine s in if ann_none s then set_allow true s else s)     (* fix 45a73d1 *)
   else if is_blank c then ROk s
   else if is_annotation_start c then switch_to_annotation s
   else if is_comment_start s c then switch_to_comment s
@@ -459,8 +462,13 @@ Definition st_after_array_item (s : sc) : res sc :=
 Definition st_end_top (s : sc) : res sc :=
   let fin (s : sc) : res sc := ROk (if s_htc s then found EndTop s else s) in
   do nl <- is_new_line s c ;
-  if nl then ROk (found NewLine s)
-  else if is_annotation_start c then switch_to_annotation s
+  if nl then ROk (let s := found NewLine s in if (s_lc s && negb (s_allow s))%bool then set_step EndTopAfterNewLine s else s)   (* fix a0479cf *)
+  else if is_annotation_start c then
+    (* fix a0479cf: in length mode a slash that does not begin // or /* is the first byte after the schema *)
+    match la with
+    | x :: _ => if (s_lc s && negb (ch x 47) && negb (ch x 42))%bool then ROk (found EndTop s) else switch_to_annotation s
+    | [] => switch_to_annotation s
+    end
   else if is_comment_start s c then switch_to_comment s
   else if negb (is_blank c) then
     if s_lc s then ROk (found EndTop s)       (* fix 555884d: the event is produced at the foreign byte itself; hasTrailingCharacters is gone
@@ -468,6 +476,10 @@ Definition st_end_top (s : sc) : res sc :=
     else if ann_none s then err_char
     else fin s
   else fin s.
+
+(* stateEndTopAfterNewLine: every byte but a slash is delegated to stateEndTop, the step stays *)
+Definition st_end_top_after_new_line (s : sc) : res sc :=
+  if is_annotation_start c then ROk (found EndTop s) else st_end_top s.
 
 Definition finish_shortcut (s : sc) : res sc :=
   let s := found TypesShortcutEnd s in
@@ -565,7 +577,7 @@ Definition st_types_shortcut_begin_of_schema_name (s : sc) : res sc :=
   if is_name c then ROk (set_unf false (set_step TypesShortcutSchemaName s)) else err_char.
 
 Definition st_types_shortcut_schema_name (s : sc) : res sc :=
-  if is_annotation_start c then (do s <- finish_shortcut s ; switch_to_annotation s)
+  if is_annotation_start c then (do s <- finish_shortcut s ; k (s_step s) s)       (* fix a0479cf: return s.step(s, c) *)
   else if is_comment_start s c then (do s <- finish_shortcut s ; switch_to_comment s)
   else if is_name c then ROk (set_step TypesShortcutSchemaName s)
   else if is_space c then ROk (set_step TypesShortcutBeforePipe s)
@@ -573,7 +585,7 @@ Definition st_types_shortcut_schema_name (s : sc) : res sc :=
   else st_end_value s.
 
 Definition st_types_shortcut_before_pipe (s : sc) : res sc :=
-  if is_annotation_start c then (do s <- finish_shortcut s ; switch_to_annotation s)
+  if is_annotation_start c then (do s <- finish_shortcut s ; k (s_step s) s)       (* fix a0479cf *)
   else if is_comment_start s c then (do s <- finish_shortcut s ; switch_to_comment s)
   else if is_space c then ROk (set_step TypesShortcutBeforePipe s)
   else if ch c 124 then ROk (set_unf true (set_step TypesShortcutAfterPipe s))
@@ -709,13 +721,13 @@ Definition st_in_annotation_object_key (s : sc) : res sc :=
   let b := s_bnd s in
   if (N.eqb b 0 && ch c 58)%bool then st_end_value s
   else if N.eqb (bN c) b then ROk (set_step EndValue s)
-  else if ch c 32 then ROk (set_step InAnnotationObjectKeyAfter s)
+  else if is_space c then ROk (set_step InAnnotationObjectKeyAfter s)     (* fix 06c1d2a: bytes.IsSpace *)
   else if (is_ctl c || ch c 34 || is_nl c)%bool then err_key
   else ROk s.
 
 Definition st_in_annotation_object_key_after (s : sc) : res sc :=
   if (N.eqb (s_bnd s) 0 && ch c 58)%bool then st_end_value s
-  else if ch c 32 then ROk s
+  else if is_space c then ROk s
   else err_key.
 
 (* f(s, c) for a stored step function f *)
@@ -762,6 +774,7 @@ Definition dispatch (f : st) (s : sc) : res sc :=
   | InlineComment => st_inline_comment s
   | MultiLineComment => st_multi_line_comment s
   | MultiLineCommentStart => st_multi_line_comment_start s
+  | EndTopAfterNewLine => st_end_top_after_new_line s
   | KeyShortcut => st_key_shortcut s
   | AnyAnnotationStart => st_any_annotation_start s
   | InlineAnnotationStart => st_inline_annotation_start s
